@@ -22,6 +22,7 @@ def run(tier, replay=None):
         ("MC_Transport", "MC_Transport_c08.cfg", {"workers": 8, "heap": "6g"}, "pass"),
         ("MC_Transport", "MC_Transport_q.cfg", {"workers": 8, "heap": "6g"}, "pass"),
         ("MC_Transport", "XF_NoGuard.cfg", {"workers": 4}, "fail"),
+        ("MC_Transport", "XF_GuardPerClient.cfg", {"workers": 4}, "fail"),
         ("MC_Transport", "XF_DeadlineBeforeLock.cfg", {"workers": 4}, "fail"),
         ("MC_Discovery", "MC_Discovery.cfg", {"workers": 8, "heap": "4g"}, "pass"),
         ("MC_Discovery", "XF_DiscoveryUnsync.cfg", {"workers": 4}, "fail"),
